@@ -23,11 +23,22 @@ class PynencError(Exception):
 
     def _to_json_dict(self) -> dict[str, Any]:
         """:return: a json serializable dictionary"""
+        if not self.__dict__ and self.args:
+            # Errors without attributes of their own (e.g. ``RetryError("msg", 3)``)
+            # carry their information in ``args`` only
+            return {
+                "args": [
+                    a if isinstance(a, (str, int, float, bool, type(None))) else str(a)
+                    for a in self.args
+                ]
+            }
         return self.__dict__
 
     @classmethod
     def _from_json_dict(cls, json_dict: dict[str, Any]) -> "PynencError":
         """:return: a new error from the serialized json compatible dictionary"""
+        if set(json_dict) == {"args"}:
+            return cls(*json_dict["args"])
         return cls(**json_dict)
 
     def to_json(self) -> str:
